@@ -28,7 +28,7 @@ SHAPES = {"degenerate": (1, 1), "tiny": (3, 5), "odd": (37, 13), "large": (20011
 
 
 def REQUIRED(tier):
-    return [f"kernel:{k}" for k in KERNELS] + ["configs_run", "probe_runs", "probe_wrong", "canary_audits", "pyfunc_checks", "shape:large", "shape:degenerate", "affinity_pinned_cases", "kernel:lib_subband", "shape:chan1300", "kernel:lib_push_data", "kernel:lib_downsample", "kernel:moments_cont", "kernel:lib_ts_downsample"]
+    return [f"kernel:{k}" for k in KERNELS] + ["configs_run", "probe_runs", "probe_wrong", "canary_audits", "pyfunc_checks", "shape:large", "shape:degenerate", "affinity_pinned_cases", "kernel:lib_subband", "shape:chan1300", "kernel:lib_push_data", "kernel:lib_downsample", "kernel:moments_cont", "kernel:lib_ts_downsample", "kernel:lib_reader_reuse"]
 
 
 def EXTRA_COVERAGE(tier, tot):
@@ -63,6 +63,8 @@ def cases(tier, seed):
         yield {"kernel": "lib_downsample", "tfactor": tf, "seed": int(seed) * 1009 + 9100 + i, "tier": tier}
     for nch in (9, 10, 12, 16):
         yield {"kernel": "lib_subband", "nchans": nch, "reps": reps, "seed": int(seed) * 1009 + 9000 + nch, "tier": tier}
+    for i, (nch, nsub) in enumerate(((48, 1), (64, 2), (64, 4))):
+        yield {"kernel": "lib_reader_reuse", "nchans": nch, "nsub": nsub, "seed": int(seed) * 1009 + 9300 + i, "tier": tier}
 
 
 def _build(kern, ns, nch, dt, rng, fr):
@@ -237,6 +239,54 @@ def _lib_subband(case, ctx):
         K.subband = orig
 
 
+def _lib_reader_reuse(case, ctx):
+    """One reader object driven at a falling, then rising number of threads: band-pass, zero-DM removal, collapse and a high-DM sub-banding
+    with few wide sub-bands must give the answers of a fresh reader at one thread (per-thread scratch kept on the object, scatter updates)."""
+    import tempfile
+
+    from sigpyproc.readers import FilReader
+    from vlib import sigfile
+
+    rng = np.random.default_rng([case["seed"], 37])
+    nch, N = int(case["nchans"]), 6000 + int(rng.integers(0, 64))
+    d = tempfile.mkdtemp(prefix="c19r-", dir=ctx.tmp)
+    X = rng.integers(0, 16, size=(N, nch)).astype(np.uint8)
+    path = os.path.join(d, "in.fil")
+    sigfile.write_fil(path, X, 8, fch1=400.0, foff=-1.0, tsamp=1e-3)
+    kw = {"quiet": True, "description": "v"}
+
+    def products(fil, tag, gulp):
+        outz, outs = os.path.join(d, f"z{tag}.fil"), os.path.join(d, f"s{tag}.fil")
+        bp = np.array(fil.bandpass(gulp=gulp, **kw).data, dtype=np.float64)
+        fil.remove_zerodm(outz, gulp=gulp, **kw)
+        tim = np.array(fil.collapse(gulp=gulp, **kw).data, dtype=np.float64)
+        fil.subband(150.0, int(case["nsub"]), outs, gulp=4096, **kw)
+        res = (bp.tobytes(), sigfile.parse_file(outz)[2], tim.tobytes(), sigfile.parse_file(outs)[2])
+        os.unlink(outz); os.unlink(outs)
+        return res
+
+    ref = sched.run_config(1, 0, lambda: products(FilReader(path), "ref", 1500))
+    if not np.array_equal(np.frombuffer(ref[0], dtype=np.float64), X.astype(np.float64).sum(axis=0)) and \
+       not np.allclose(np.frombuffer(ref[0], dtype=np.float64), X.astype(np.float64).mean(axis=0), rtol=1e-6):
+        ctx.violation("wrong-result:Filterbank.bandpass", "band-pass of a fresh reader at one thread is neither the per-channel sum nor the mean", dict(case))
+        return
+    fil = FilReader(path)
+    names = ("bandpass", "remove_zerodm", "collapse", "subband")
+    for t in (16, 8, 2, 1, 3, 12, 16, 1):
+        ctx.evaluated(); ctx.count("kernel:lib_reader_reuse")
+        one = dict(case, threads=t)
+        try:
+            got = sched.run_config(min(t, NUMBA_THREADS), 0, lambda: products(fil, str(t), 1500))
+        except Exception as exc:  # noqa: BLE001
+            ctx.violation(f"kernel-raised:lib_reader_reuse:{type(exc).__name__}@{exc_site(exc)}", f"threads={t}: {fmt_exc(exc)}", one)
+            return
+        for nm, g, r in zip(names, got, ref):
+            if g != r:
+                ctx.violation(f"schedule-dependent:Filterbank.{nm}:reader-reused", f"{nm} on a reader used before at other thread counts, now with {t} threads, differs from a fresh reader at one thread", one)
+                return
+    ctx.nontrivial_case({"k": "lib_reader_reuse", "nch": nch, "nsub": case["nsub"]})
+
+
 def _lib_downsample(case, ctx):
     """Filterbank.downsample over several reads: the product must be the same file for every thread count (and the whole-file decimation)."""
     import tempfile
@@ -356,6 +406,8 @@ def _run_case(case, ctx):
         return _lib_push(case, ctx)
     if case["kernel"] == "lib_downsample":
         return _lib_downsample(case, ctx)
+    if case["kernel"] == "lib_reader_reuse":
+        return _lib_reader_reuse(case, ctx)
     if case["kernel"] == "lib_ts_downsample":
         return _lib_ts_downsample(case, ctx)
     rng = np.random.default_rng([case["seed"], 19])
